@@ -22,18 +22,22 @@ TECHNIQUE = ("explicit-state breadth-first search over HDF5 write histories (sta
              "single-step round trips over all matching option sets of the table forms; every single-cell mutation "
              "of deep copies")
 RULE = ("hdf5: one transition = one real to_hdf5(file, groupname) of a pool object (pool per class: all labels+grouped, "
-        "labels only, none, partial, small/1-trait, non-ASCII) into the file state reached by a history, groupname in "
+        "labels only, none, partial, small/1-trait, non-ASCII; plus objects in post-operation states — after in-place "
+        "ungroup / sort / remove / arithmetic / coefficient edits — at depth 2) into the file state reached by a history, groupname in "
         "{None,'g','g/h/','a/b'}, file passed as str / Path / open h5py.File in rotation; after every write every "
         "location written so far is read back with from_hdf5 (once per distinct file state, compared per history) and "
         "must be observably equal (every public property, dtype and element types included) to the LAST object written "
         "there; states are distinct file contents; non-trivial = history that overwrites a location or writes >= 2 "
         "locations.  table: one case = (class, pool object, option set, pandas|csv) written and read back with the "
-        "matching options; long formats are compared up to the label-consistent permutation of taxa/traits the reader "
+        "matching options (columns by name and by integer position, header-less CSV, every optional column present and "
+        "different in content); long formats are compared up to the label-consistent permutation of taxa/traits the reader "
         "applies; group metadata is not representable in a table and is not compared (genetic maps excepted: the "
         "reader regroups).  vcf: one case = one VCF text (samples x records x phased diploid calls x contig/position/ID "
         "layout) read by from_vcf of both genotype classes with and without auto_group_vrnt.  copy: copy.copy, "
         "copy.deepcopy, .copy(), .deepcopy() equal their source; deep copies share no ndarray memory / dict / nested "
-        "object with it and every single-cell mutation of the deep copy leaves the source's observation unchanged")
+        "object with it and every single-cell mutation of the deep copy leaves the source's observation unchanged; genetic "
+        "maps are also observed by what they DO (interp_genpos at own, midpoint and fixed probe positions, spline keys and "
+        "knots), in states whose stored spline differs from a fresh build (remove/select without rebuild, user spline)")
 ASSUME = ["h5py, pandas and cyvcf2 read back what they were given (trusted base)",
           "mc/compat.py restores removed numpy names only",
           "an injected random generator (G_E_Phenotyping.rng) is a service handle, not object state: copies may share it",
@@ -52,10 +56,7 @@ GROUP_META = ("taxa_grp_name", "taxa_grp_stix", "taxa_grp_spix", "taxa_grp_len",
               "vrnt_chrgrp_name", "vrnt_chrgrp_stix", "vrnt_chrgrp_spix", "vrnt_chrgrp_len")
 
 # classes of the table that cannot be constructed through their own constructor in this tree
-NOT_CONSTRUCTED = {
-    "DenseGeneticMappableMatrix": "constructor raises TypeError for every input (missing comma: `vrnt_mask = vrnt_mask **kwargs`) "
-                                  "— a constructor defect, not an I/O round-trip matter; its subclasses are covered",
-}
+NOT_CONSTRUCTED = {}
 NOT_CONSTRUCTED.update(P.NOT_IMPORTABLE)
 
 
@@ -228,11 +229,12 @@ def _site(e):
 
 
 class H5Explorer:
-    def __init__(self, ctx, sc, name, tier, seed, profs=None):
+    def __init__(self, ctx, sc, name, tier, seed):
         self.ctx, self.sc, self.name = ctx, sc, name
         self.cls = P.get_class(name)
-        self.profs = profs if profs is not None else P.profiles(name, tier)
-        self.objs = [P.build(name, pr, seed) for pr in self.profs]
+        pool = P.build_pool(name, tier, seed)
+        self.profs = [pr for pr, _ in pool]
+        self.objs = [o for _, o in pool]
         self.exp = [P.observe(o) for o in self.objs]
         self.exp_dig = [P.obs_digest(e) for e in self.exp]
         self.work = sc.path("work.h5")
@@ -421,6 +423,7 @@ class H5Explorer:
 
 def run_hdf5(ctx, sc, name, first_group):
     depth, ptier = 3, "quick"
+    spec_is_main = first_group is None      # quick tier: the single shard of the class
     if first_group == "wide2":
         depth, ptier, first_group = 2, "wide", None
     elif first_group == "d3":
@@ -435,6 +438,16 @@ def run_hdf5(ctx, sc, name, first_group):
     ex = H5Explorer(ctx, sc, name, ptier, ctx.seed)
     ex.bfs(depth, first_group)
     ctx.flag(f"hdf5:{name}")
+    for pr in ex.profs:
+        if pr.get("post"):
+            ctx.flag("hdf5-post-op:" + pr["id"])
+    if spec_is_main:
+        # objects in post-operation states (after in-place ungroup / sort / remove / coefficient edits): depth-2 histories
+        ex2 = H5Explorer(ctx, sc, name, "post", ctx.seed)
+        if ex2.objs:
+            ex2.bfs(2)
+            for pr in ex2.profs:
+                ctx.flag("hdf5-post-op:" + pr["id"])
     if ctx.evaluations and len(ctx.samples) < 1 and name in ("DenseGenotypeMatrix", "DenseBreedingValueMatrix"):
         ctx.sample(dict(kind="hdf5", cls=name, pool=[p["id"] for p in ex.profs], depth=depth,
                         example_history=ex.describe(((0, 1, "str"), (2, 1, "path"), (1, 2, "handle")))))
@@ -590,13 +603,23 @@ def table_case(ctx, sc, name, prof, cid, form, seed):
 
 def run_table(ctx, sc, name):
     ctx.bounds.update({"table_forms": ["pandas", "csv"], "table_option_sets": "defaults / explicit default names / custom "
-                       "non-ASCII column names / read by column index / explicit trait or taxa sequences / numeric trait "
-                       "columns / unit settings cM,M,centiMorgans,Morgans / unscale / (location, scale) arguments"})
-    for prof in P.profiles(name, "wide"):
+                       "non-ASCII column names / every column (optional ones too) by integer position / header-less CSV read by "
+                       "position / explicit trait or taxa sequences / numeric trait columns / unit settings "
+                       "cM,M,centiMorgans,Morgans / spline kind and fill value / unscale / (location, scale) arguments",
+                       "post_operation_states": "pools of copies, table forms and HDF5 (depth 2) also hold objects after in-place "
+                       "ungroup / sort / remove, in-place arithmetic, coefficient and parameter edits, and genetic maps after "
+                       "remove/select without spline rebuild, with a user-supplied spline, non-default kind / fill value, no spline"})
+    for prof, _ in P.build_pool(name, "wide", ctx.seed):
+        if prof.get("table") is False:
+            continue                     # state that a table cannot carry (stored interpolators differ from a fresh build)
         obj = _table_obj(name, prof, ctx.seed)
         for cid, _w_, _r_, _cmp in P.table_cases(name, obj, ctx.tier):
             for form in ("pandas", "csv"):
+                if cid.startswith("csv:") and form != "csv":
+                    continue
                 table_case(ctx, sc, name, prof, cid, form, ctx.seed)
+        if prof.get("post"):
+            ctx.flag("table-post-op:" + prof["id"])
     ctx.flag(f"table:{name}")
 
 
@@ -620,8 +643,8 @@ def leaves(obj, path="", seen=None, depth=0):
         elif isinstance(v, dict):
             yield p, v
             for kk in sorted(v, key=str):
-                if isinstance(v[kk], numpy.ndarray):
-                    yield f"{p}[{kk}]", v[kk]
+                if isinstance(v[kk], numpy.ndarray) or hasattr(v[kk], "__dict__"):
+                    yield f"{p}[{kk}]", v[kk]       # arrays, and objects such as scipy interpolators (identity only)
         elif isinstance(v, list):
             yield p, v
         elif isinstance(v, (numpy.random.Generator, numpy.random.RandomState)):
@@ -796,9 +819,11 @@ def _w(how):
 def run_copy(ctx, name):
     ctx.bounds.update({"copy_ways": list(COPY_WAYS), "copy_mutations": "every cell of every array with <= 32 cells, "
                        "corner/middle/per-axis cells of larger ones; every key of every dict"})
-    for prof in P.profiles(name, "wide"):
+    for prof, _ in P.build_pool(name, "wide", ctx.seed):
         for how in COPY_WAYS:
             copy_case(ctx, name, prof, how, ctx.seed)
+        if prof.get("post") or prof["id"] in ("kind-nearest", "fill-array", "no-spline-ungrouped"):
+            ctx.flag("copy-post-op:" + prof["id"])
     ctx.flag(f"copy:{name}")
 
 
@@ -1047,6 +1072,16 @@ def finalize(ctx, tier, seed):
         assert f in ctx.flags, f
     for gi in range(len(GROUPS)):
         assert f"group-index:{gi}" in ctx.flags, gi
+    for f in ("copy-post-op:post-remove-stale-spline", "copy-post-op:post-select-drops-chr", "copy-post-op:user-spline",
+              "copy-post-op:kind-nearest", "copy-post-op:fill-array", "copy-post-op:post-ungroup", "copy-post-op:post-sort",
+              "copy-post-op:post-remove", "copy-post-op:post-coef-edit", "copy-post-op:post-reassign",
+              "copy-post-op:post-param-edit", "copy-post-op:post-inplace-arith",
+              "hdf5-post-op:post-ungroup", "hdf5-post-op:post-sort", "hdf5-post-op:post-remove", "hdf5-post-op:post-coef-edit",
+              "table-post-op:post-sort", "table-post-op:post-coef-edit",
+              "table:gmap:read-by-index", "table:gmap:csv:headerless-by-index", "table:long:read-by-index-trait-too",
+              "table:bv:read-by-index-traits-too", "table:bv:csv:headerless-by-index", "table:gmod:trait-cols-by-index",
+              "table:v2:csv:headerless-by-index", "table:c4:read-by-index", "table:cmat:read-by-index"):
+        assert f in ctx.flags, f
     for how in COPY_WAYS:
         assert f"copy-way:{how}" in ctx.flags, how
     assert ctx.counters.get("copy-mutations", 0) > 1000, ctx.counters.get("copy-mutations")
@@ -1061,9 +1096,8 @@ def replay(case, ctx):
         k = case["kind"]
         if k == "hdf5":
             name = case["cls"]
-            profs = P.profiles(name, "wide")
-            ids = [p["id"] for p in profs]
-            ex = H5Explorer(ctx, sc, name, "wide", case["seed"], profs=profs)
+            ex = H5Explorer(ctx, sc, name, "wide", case["seed"])
+            ids = [p["id"] for p in ex.profs]
             ex.run_history(tuple((ids.index(pid), gi, via) for pid, gi, via in case["history"]))
         elif k == "table":
             prof = {p["id"]: p for p in P.profiles(case["cls"], "wide")}[case["prof"]]
